@@ -203,10 +203,10 @@ def place_origin(inst, pl, depth=8):
         return ("unknown",)
     ds = defs_of(inst, l)
     if len(ds) != 1:
-        return ("unknown",)
+        return ("local", l, fields)
     bi, r = ds[0]
     if r["k"] == "call":
-        return ("call", r["term"].get("callee_path"), r["term"])
+        return ("call", r["term"].get("callee_path"), r["term"], fields)
     if r["k"] == "use":
         o = origin(inst, r["a"], depth - 1)
     elif r["k"] in ("ref", "rawptr"):
@@ -215,6 +215,8 @@ def place_origin(inst, pl, depth=8):
         o = origin(inst, r["a"], depth - 1)
     else:
         return ("unknown",)
-    if o[0] == "param":
-        return ("param", o[1], o[2] + fields)
+    if o[0] in ("param", "local"):
+        return (o[0], o[1], o[2] + fields)
+    if o[0] == "call":
+        return ("call", o[1], o[2], o[3] + fields)
     return o
